@@ -362,7 +362,7 @@ def dispatch_memo(run, ct, rng, count):
         inp, out, size = net.c_inputs(), net.c_output(), net.c_sizes()
         lin = tuple(tuple(p) for p in nets.ssa_to_linear(nets.tree_to_ssa(nets.rand_tree(rng, net.N), net.N, rng), net.N))
         ep = tuple(net.lab[ix] for ix in rng.sample(range(1, net.K + 1), net.K))
-        want = {"linear": lin, "edge": tuple(map(tuple, edge_path_to_linear(ep, inp)))}
+        want = {"linear": tuple(tuple(sorted(p)) for p in lin), "edge": tuple(tuple(sorted(p)) for p in edge_path_to_linear(ep, inp))}
         # start like a fresh process does (nothing remembered), then ask in a random order
         getattr(interface, "_find_path_handlers", {}).clear()
         interface._PATH_CACHE.clear()
@@ -380,7 +380,8 @@ def dispatch_memo(run, ct, rng, count):
                     got = interface.find_path(inp, out, size, optimize=opt)
                 else:
                     got = ct.array_contract_path(inp, out, size, optimize=opt, canonicalize=False, cache=entry == "array_contract_path")
-                got = tuple(tuple(p) for p in got)
+                # (which position of a step is written first is not part of what a path means)
+                got = tuple(tuple(sorted(p)) for p in got)
             except Exception as e:
                 run.violation(f"{entry} with an explicit {kind} path ({cont.__name__}) raised {core.exc_text(e)} as call {k + 1} of {seq} "
                               f"eq={net.eq()}", d, tags={"dispatch-memo", "raised"})
